@@ -20,7 +20,8 @@ class C04(Oracle):
 
     def swarm(self, rng):
         w = {"doc": 1, "bundle": 3, "add_ns": 4, "set_default": rng.choice([0, 1]), "rec": 20,
-             "add_attrs": 3}
+             "add_attrs": 3, "get_record": rng.choice([0, 2]), "get_records": rng.choice([0, 1]),
+             "add_type": rng.choice([0, 1])}
         prof = {
             "w": w,
             "max_docs": rng.choice([1, 2]),
@@ -68,6 +69,23 @@ class C04(Oracle):
             st["pairs"] = st["pairs"][:45]
             st["recpairs"] = 6
         if st["pairs"]:
+            if len(st["pairs"]) == 20 and not st.get("mutated"):
+                # touch a record that has already been hashed by the comparisons so far ...
+                st["mutated"] = rng.randrange(12)
+                return ["add_type", ["n", base, st["mutated"]],
+                        ["qn", "prov", "http://www.w3.org/ns/prov#", rng.choice(["Plan", "Person", "Collection"])]]
+            if len(st["pairs"]) == 19 and st.get("mutated") is not None and not st.get("twin"):
+                # ... and compare it with a twin built from the document as it is now
+                st["twin"] = gen.fresh("P")
+                st["partners"].append(st["twin"])
+                return ["rebuild", st["twin"], base, {"perm": None, "prefix": "orig", "dup": None,
+                                                     "via": "new_record", "edit": None}]
+            if len(st["pairs"]) == 18 and st.get("twin"):
+                st["pairs"].pop()
+                return ["req", ["n", base, st["mutated"]], ["n", st["twin"], st["mutated"]]]
+            if len(st["pairs"]) == 17 and st.get("twin"):
+                st["pairs"].pop()
+                return ["eq", base, st["twin"]]
             a, b = st["pairs"].pop()
             return ["eq", a, b]
         if st["recpairs"] > 0:
@@ -110,6 +128,9 @@ class C04(Oracle):
                 self.probe("edit_" + e.split(":")[0])
             if op[3].get("edit") is None:
                 self.probe("content_preserving_partner")
+        if k in ("add_type", "add_attrs", "rec", "set_time") and self.matrix:
+            # a document changed after it was compared: earlier verdicts about it are history
+            self.matrix = {}
         if k == "eq" and out.status != "skip":
             self.chk_eq(w, op, out)
         elif k == "req" and out.status != "skip":
